@@ -65,7 +65,8 @@ def main():
         if not os.path.isdir(repo):
             sh(f"git -C /repo worktree add -q --detach {repo} HEAD")
         sh("git reset -q --hard && git checkout -q --detach main", cwd=repo)
-        sh(f"mkdir -p {verif} && rsync -a --delete --exclude .build --exclude .work --exclude .git --exclude replays --exclude evidence /verif/ {verif}/")
+        vsrc = os.environ.get("SEED_VERIF_SRC", "/verif")  # a frozen copy keeps first verdicts independent of later edits
+        sh(f"mkdir -p {verif} && rsync -a --delete --exclude .build --exclude .work --exclude .git --exclude replays --exclude evidence {vsrc}/ {verif}/")
         sh(f"sed -i 's|path = \"/repo\"|path = \"{repo}\"|' {verif}/engine/mc/Cargo.toml")
         envx = {"E57_REPO": repo}
     st = sh(f"git -C {repo} status --short")[1].strip()
